@@ -56,6 +56,7 @@ type Prog struct {
 	cg      *callgraph.Graph
 
 	depFuncs map[*types.Func]*Func // lazily built functions of dependency packages
+	frozen   map[*types.Var]*frozenInfo
 	depDone  map[string]bool
 
 	origNode    map[ast.Node]ast.Node         // copied node → node it was copied from
@@ -627,4 +628,91 @@ func (p *Prog) FieldDeep(pkg, typ, name string, pred func(types.Type) bool) *typ
 		Fail("field %s.%s.%s not found (and no unique field of its type, directly or in a helper struct)", pkg, typ, name)
 	}
 	return found[0]
+}
+
+// frozenVar reports whether the package-level variable v of pkg is initialised by a keyed composite literal and
+// never written again anywhere in the package (no assignment to it or to one of its fields, no address taken, no
+// inc/dec), and returns that literal.
+func (p *Prog) frozenVar(pkg *packages.Package, v *types.Var) (*ast.CompositeLit, bool) {
+	if p.frozen == nil {
+		p.frozen = map[*types.Var]*frozenInfo{}
+	}
+	if fi, ok := p.frozen[v]; ok {
+		return fi.init, fi.ok
+	}
+	fi := &frozenInfo{ok: true}
+	p.frozen[v] = fi
+	rootIs := func(e ast.Expr) bool {
+		for {
+			switch t := ast.Unparen(e).(type) {
+			case *ast.SelectorExpr:
+				e = t.X
+			case *ast.IndexExpr:
+				e = t.X
+			case *ast.StarExpr:
+				e = t.X
+			case *ast.Ident:
+				return pkg.TypesInfo.Uses[t] == types.Object(v)
+			default:
+				return false
+			}
+		}
+	}
+	for _, file := range pkg.Syntax {
+		ast.Inspect(file, func(n ast.Node) bool {
+			switch t := n.(type) {
+			case *ast.ValueSpec:
+				for i, nm := range t.Names {
+					if pkg.TypesInfo.Defs[nm] == types.Object(v) && i < len(t.Values) {
+						if cl, ok := ast.Unparen(t.Values[i]).(*ast.CompositeLit); ok {
+							fi.init = cl
+						}
+					}
+				}
+			case *ast.AssignStmt:
+				for _, l := range t.Lhs {
+					if rootIs(l) {
+						fi.ok = false
+					}
+				}
+			case *ast.IncDecStmt:
+				if rootIs(t.X) {
+					fi.ok = false
+				}
+			case *ast.UnaryExpr:
+				if t.Op == token.AND && rootIs(t.X) {
+					fi.ok = false
+				}
+			case *ast.RangeStmt:
+				for _, e := range []ast.Expr{t.Key, t.Value} {
+					if e != nil && rootIs(e) {
+						fi.ok = false
+					}
+				}
+			case *ast.CallExpr:
+				// a method with a pointer receiver called on the variable takes its address
+				if sel, ok := ast.Unparen(t.Fun).(*ast.SelectorExpr); ok {
+					if s := pkg.TypesInfo.Selections[sel]; s != nil && s.Kind() == types.MethodVal && rootIs(sel.X) {
+						if fn, ok := s.Obj().(*types.Func); ok {
+							if r := fn.Type().(*types.Signature).Recv(); r != nil {
+								if _, isPtr := r.Type().(*types.Pointer); isPtr {
+									fi.ok = false
+								}
+							}
+						}
+					}
+				}
+			}
+			return true
+		})
+	}
+	if fi.init == nil {
+		fi.ok = false
+	}
+	return fi.init, fi.ok
+}
+
+type frozenInfo struct {
+	init *ast.CompositeLit
+	ok   bool
 }
